@@ -19,7 +19,8 @@ RULE = (
     "xfxQ2 raise, xiR, xiF in [0.2,5], alpha_s and alpha callables with generated parameters, and for the theory clause a "
     "theory card (alphas, Qref, nfref, PTO 0-3, FFNS/FFN0/ZM-VFNS, masses). Oracles: (formula) explicit-loop evaluation of "
     "sum_k a_s(xiR Q)^k alpha^l ln(1/xiR^2)^i ln(1/xiF^2)^j sum_{p,n} O[p,n] f_p(x_n, xiF^2 Q2)/x_n; (linear) "
-    "apply(a f + b g) = a apply(f) + b apply(g); (absent) absent flavours contribute nothing and are never evaluated; "
+    "apply(a f + b g) = a apply(f) + b apply(g); (reuse) on the same Output: a PDF object changed in place since the previous call, PDF objects that live only for the "
+    "duration of a call, and a repetition of the first call each give their own reference value; (absent) absent flavours contribute nothing and are never evaluated; "
     "(theory) apply_pdf_theory uses alpha_s from an independent integration of the beta-function ODE (beta0..beta3 typed "
     "in) at order PTO+1 from (Qref, nfref) to nf=NfFF or nf(mu) with typed-in decoupling at every matching scale (m k)^2 on the way (generated k in [0.5,2.5], nfref independent of NfFF); (default) apply_pdf(pdf) = apply_pdf_theory(pdf, out.theory). "
     "Non-trivial = at least one point with a non-zero prediction and (xiR,xiF) != (1,1)."
@@ -34,7 +35,7 @@ ASSUMPTIONS = [
 ]
 BUDGET = {"quick": {"examples": 1600, "wall": 300}, "thorough": {"examples": 80000, "wall": 2400}}
 MANDATORY = {
-    t: ["nontrivial", "source:real", "source:synthetic", "clause:formula", "clause:linear", "clause:absent", "clause:theory",
+    t: ["nontrivial", "source:real", "source:synthetic", "clause:formula", "clause:linear", "clause:reuse", "clause:absent", "clause:theory",
         "theory:FFNS", "theory:ZM-VFNS", "theory:crossing", "theory:matching-nontrivial", "theory:FFNS-nfref-differs", "mixed-key", "xs"]
     for t in ("quick", "thorough")
 }
@@ -298,6 +299,22 @@ def check_case(case):
                 v.metric("linear", d / (1e-11 * s + 1e-300))
                 if not d <= 1e-11 * s + 1e-300:
                     v.fail("C17:linear", f"{name}[{i}]: apply(a f + b g) != a apply(f) + b apply(g): |d|={d:.3e} scale {s:.3e}")
+        # history on one Output: every application stands on its own - a PDF object that was changed in place since the last
+        # call, PDF objects that exist only for the duration of the call (and may reuse the address of the previous one), and a
+        # repetition of the very first call
+        v.label("clause:reuse")
+        fm = pdfs.SmoothPDF(case["pdf"])
+        guarded(out.apply_pdf_alphas_alphaqed_xir_xif, fm, alpha_s, alpha_qed, xir, xif)
+        fm.params = pdfs.SmoothPDF(case["pdf2"]).params
+        compare("reuse:mutated-in-place", guarded(out.apply_pdf_alphas_alphaqed_xir_xif, fm, alpha_s, alpha_qed, xir, xif), ref2)
+        del fm
+        compare("reuse:temporary", guarded(out.apply_pdf_alphas_alphaqed_xir_xif, pdfs.SmoothPDF(case["pdf"]), alpha_s, alpha_qed, xir, xif), ref1)
+        compare("reuse:temporary", guarded(out.apply_pdf_alphas_alphaqed_xir_xif, pdfs.SmoothPDF(case["pdf2"]), alpha_s, alpha_qed, xir, xif), ref2)
+        again = guarded(out.apply_pdf_alphas_alphaqed_xir_xif, f1, alpha_s, alpha_qed, xir, xif)
+        for name in got:
+            for i, (p_, q_) in enumerate(zip(got[name], again[name])):
+                if p_["result"] != q_["result"] and not (p_["result"] != p_["result"] and q_["result"] != q_["result"]):
+                    v.fail("C17:reuse:repeat", f"{name}[{i}]: the same application gives {q_['result']!r} after other PDFs were applied, {p_['result']!r} before")
         # absent flavours
         v.label("clause:absent")
         present = [p for p in pdfs.ALL if p not in case["absent"]]
